@@ -30,7 +30,7 @@ RULE = ("(0) field level, exhaustive: attr.ib over cmp/eq/order in {None,True,Fa
         "{-1,0,1}^k or {0,1,2}^k through x<y, x<=y, x>y, x>=y and the four methods called directly; "
         "(3) inheritance chains of 2..3 classes (fields added / overridden, classes without ordering that "
         "inherit generated methods): same-class, subclass, superclass, foreign, identical-object, float-NaN "
-        "operands; (4) scripted comparison objects (== and ordering outcomes True/False/non-bool/raises, "
+        "(in key-less and in keyed fields) operands; (4) scripted comparison objects (== and ordering outcomes True/False/non-bool/raises, "
         "identical objects on both sides); (5) classes with 4..5 fields on sampled pairs.  distinct = "
         "distinct case inputs; non-trivial = decision rows, and chains with at least one probe")
 EXTRA_TRUSTED = [
@@ -321,7 +321,7 @@ FOREIGN_OPS = [["p", "object"], ["p", "none"], ["p", "int"], ["p", "tuple"], ["f
 
 def chain_cases(rng, tier):
     out = []
-    for _ in range(90 if tier == "quick" else 800):
+    for _ in range(70 if tier == "quick" else 800):
         depth = rng.choice([2, 2, 3])
         specs, names_so_far = [], []
         for d in range(depth):
@@ -358,12 +358,17 @@ def chain_cases(rng, tier):
                     items.append(["probe", c, rand_vals(rng, k), ["inst", c2, rand_vals(rng, k2)]])
             for o in rng.sample(FOREIGN_OPS, 2):
                 items.append(["probe", c, rand_vals(rng, k), o])
-            # float NaN only in fields that reach the tuple without a key (documented restriction)
+            # float NaN, in key-less fields and in fields whose value reaches the tuple through a key
+            # function (the harness's key functions return a registered NaN object per (key, input
+            # object), so identity of the keyed values is known to the model: Common.c_keyf on Vn)
             fl = fls[depth - 1 - c]
-            keyless = [j for j, f in enumerate(fl) if not any(s[0] == "K" for s in f[1:])]
-            if keyless:
+            keyed_f = [j for j, f in enumerate(fl) if any(s_[0] == "K" for s_ in f[1:])]
+            keyless = [j for j in range(k) if j not in keyed_f]
+            for pool in (keyless, keyed_f):
+                if not pool:
+                    continue
                 xv = rand_vals(rng, k)
-                j = rng.choice(keyless)
+                j = rng.choice(pool)
                 xv[j] = ["n", 1]
                 yv = list(xv)
                 yv[j] = ["n", 2]
